@@ -58,10 +58,13 @@ def place_demos(d):
     default = max(set(dirs), key=dirs.count) if dirs else "vm"
     feats = "grammar-extras" if re.search(r"demo[^\n]*--features grammar-extras|--features grammar-extras[^\n]*demo", notes) else ""
     out = []
+    override = {}
+    if os.path.exists(os.path.join(d, "placement.json")):
+        override = json.load(open(os.path.join(d, "placement.json")))
     for f in sorted(os.listdir(d)):
         if not (f.endswith(".rs") and f.startswith("demo")):
             continue
-        crate = "derive" if "derive" in f else ("vm" if "_vm" in f else default)
+        crate = override.get(f) or ("derive" if "derive" in f else ("vm" if "_vm" in f else default))
         name = "seeddemo_" + re.sub(r"\W", "_", f[:-3])
         dst = os.path.join(WT, crate, "tests", name + ".rs")
         os.makedirs(os.path.dirname(dst), exist_ok=True)
